@@ -583,7 +583,7 @@ void BootstrapRandomGroupsCV(MODELINPUT *input,
     va_end(valist);
   }
 
-  if(mx->row == my->row && group > 0 && iterations > 0){
+  if(mx->row == my->row && group > 1 && iterations > 0){
     size_t th, iterations_;
     pthread_t *threads;
     uivector *predictcounter;
